@@ -406,3 +406,47 @@ def rule_iter1(ctx: Ctx) -> RuleResult:
     rr.ob("json_to_models", "<package>", f"{n_mod} modules", st, DISCHARGED,
           "no closure reads a one-shot iterator of its enclosing function (positive control matched)", 1)
     return rr
+
+
+# ---------------------------------------------------------------------------------------------------------------
+def rule_convform1(ctx: Ctx) -> RuleResult:
+    """CONVFORM-1: the per-field converter emitted when post-init converters are off parses the string the way the
+    pseudo-type does: a class whose parser is not its plain constructor cannot be used as `converter=<class>`."""
+    rr = RuleResult("CONVFORM-1", "the per-field converter of a pseudo-typed attrs field is that type's parser", floor=1)
+    prog = ctx.prog
+    g = prog.cls("json_to_models/models/attr.py", "AttrsModelCodeGenerator")
+    fd = g.methods.get("field_data", [None])[0]
+    if fd is None:
+        raise AnalysisError("CONVFORM-1: AttrsModelCodeGenerator.field_data vanished")
+    sites = [n for n in walk_no_nested(fd.node) if isinstance(n, ast.Assign) and isinstance(n.targets[0], ast.Subscript)
+             and isinstance(n.targets[0].slice, ast.Constant) and n.targets[0].slice.value == "converter"]
+    if not sites:
+        rr.instances += 1
+        rr.ob(fd.relpath, fd.qualname, "converter", "no per-field converter is emitted", DISCHARGED, "nothing to check", fd.node.lineno)
+        return rr
+    # pseudo-types whose parser is more than the constructor call
+    base = prog.cls("json_to_models/dynamic_typing/string_serializable.py", "StringSerializable")
+    special = []
+    for k in prog.subclasses(base, strict=True):
+        ms = prog.lookup_method(k, "to_internal_value")
+        if not ms or ms[0].cls is base:
+            continue
+        body = [s_ for s_ in ms[0].node.body if not (isinstance(s_, ast.Expr) and isinstance(s_.value, ast.Constant))]
+        plain = len(body) == 1 and isinstance(body[0], ast.Return) and isinstance(body[0].value, ast.Call) and \
+            norm(body[0].value.func) == "cls" and len(body[0].value.args) == 1
+        if not plain:
+            special.append(k.name)
+    for n in sites:
+        rr.instances += 1
+        v = n.value
+        txt = norm(v)
+        uses_parser = "to_internal_value" in txt
+        ok = uses_parser or not special
+        rr.ob(fd.relpath, fd.qualname, "converter=<class>" if not uses_parser else "converter=<class>.to_internal_value",
+              "constructing the generated attrs class from sample strings converts them with the pseudo-type's own parser",
+              DISCHARGED if ok else VIOLATED,
+              "the parser is emitted" if uses_parser else
+              (f"the class itself is emitted as converter (`{txt[:50]}`), i.e. its constructor: for {', '.join(sorted(special))} the "
+               f"parser is not the constructor, so Root(flag=\"true\") raises ValueError / TypeError instead of converting"
+               if special else "every pseudo-type's parser is its constructor"), n.lineno)
+    return rr
